@@ -634,6 +634,7 @@ static void run_cmd(int ntok, char **tok) {
          * checksum type and the (mutated file's own) stored header checksum pinned, then read_lead+read_header. */
         size_t n; char *d = get_data(A(1), &n); long from = (long)AI(2), to = (long)AI(3);
         int pin = !strcmp(A(4), "pin"); int pht = (int)AI(5); long dloc = (long)AI(6), dsz = (long)AI(7);
+        int relead = !strcmp(A(4), "relead");   /* the context has read the lead of the ORIGINAL bytes before they change (state carried between calls) */
         if(to > (long)n) to = (long)n;
         int mfd = memfd_create("hdrscan", 0);
         ssize_t w = __real_write(mfd, d, n); (void)w;
@@ -645,11 +646,17 @@ static void run_cmd(int ntok, char **tok) {
             for(int v = 0; v < 256; v++) {
                 if(v == orig) continue;
                 unsigned char b = (unsigned char)v;
-                if(pwrite(mfd, &b, 1, p) != 1) continue;
-                __real_lseek(mfd, 0, SEEK_SET);
                 zckCtx *z = zck_create();
                 bool ok;
-                if(!pin) ok = zck_init_read(z, mfd);
+                if(relead) {
+                    __real_lseek(mfd, 0, SEEK_SET);
+                    ok = zck_init_adv_read(z, mfd) && zck_read_lead(z);
+                    if(!ok) { zck_free(&z); break; }       /* the unmodified lead is not accepted: reported by the plain cases */
+                }
+                if(pwrite(mfd, &b, 1, p) != 1) { zck_free(&z); continue; }
+                __real_lseek(mfd, 0, SEEK_SET);
+                if(relead) ok = zck_read_lead(z) && zck_read_header(z);
+                else if(!pin) ok = zck_init_read(z, mfd);
                 else {
                     char hex[200]; unsigned char cur[64];
                     if(dsz > 64) dsz = 64;
@@ -662,6 +669,7 @@ static void run_cmd(int ntok, char **tok) {
                 tried++;
                 if(ok) { char tmp[48]; snprintf(tmp, sizeof tmp, "%s[%ld,%d]", acc ? "," : "", p, v); ev_raw(tmp); acc++; }
                 zck_free(&z);
+                if(relead && pwrite(mfd, &orig, 1, p) != 1) break;
             }
             if(pwrite(mfd, &orig, 1, p) != 1) break;
         }
